@@ -36,6 +36,9 @@ pub enum Lat {
     Never,
     /// completes when the harness opens the gate
     Gate,
+    /// busy for this many virtual ms: every poll drains the task's cooperative budget with
+    /// immediately ready tokio operations (as draining a full channel would) before yielding
+    Busy(u64),
 }
 
 #[derive(Clone, Copy, Debug, PartialEq, Eq, Hash, Serialize, Deserialize)]
@@ -43,6 +46,8 @@ pub enum Out {
     Ok,
     Err(u32),
     Panic,
+    /// the service panics inside `Service::call` itself, before it returns a future
+    PanicInCall,
 }
 
 #[derive(Clone, Copy, Debug, PartialEq, Eq, Hash, Serialize, Deserialize)]
@@ -196,9 +201,16 @@ pub fn run_step(
                     shared.gate.notified().await;
                 }
             }
+            Lat::Busy(ms) => {
+                let until = std::time::Instant::now() + Duration::from_millis(ms);
+                // never yields voluntarily: only the exhausted budget makes a poll return
+                while std::time::Instant::now() < until {
+                    tokio::task::coop::consume_budget().await;
+                }
+            }
         }
         match step.out {
-            Out::Panic => std::panic::panic_any(ScriptedPanic),
+            Out::Panic | Out::PanicInCall => std::panic::panic_any(ScriptedPanic),
             Out::Ok => {
                 guard.finished = true;
                 shared.log.push(Ev::Done {
@@ -259,6 +271,11 @@ impl tower::Service<Req> for Scripted {
 
     fn call(&mut self, req: Req) -> Self::Future {
         let (serial, step) = self.enter(&req);
+        if step.out == Out::PanicInCall {
+            // entered and gone in the same breath: never in flight
+            self.shared.log.push(Ev::Panicked { t: now(), serial });
+            std::panic::panic_any(ScriptedPanic);
+        }
         run_step(self.shared.clone(), serial, req, step)
     }
 }
